@@ -178,6 +178,15 @@ func main() {
 		os.Exit(cmdRun(os.Args[2:]))
 	case "check":
 		os.Exit(cmdCheck(os.Args[2:]))
+	case "racebmc":
+		tier := "quick"
+		if len(os.Args) > 2 {
+			tier = os.Args[2]
+		}
+		r := checkRaces("C17", tier)
+		js, _ := json.MarshalIndent(map[string]interface{}{"violations": r.Violations, "inconclusive": r.Inconclusive}, "", " ")
+		fmt.Println(string(js))
+		return
 	case "replay":
 		os.Exit(cmdReplay(os.Args[2:]))
 	case "list":
